@@ -276,7 +276,7 @@ def _clone(v):
 class Scenario(object):
     """Finite facts a path depends on."""
     def __init__(self, name='', bind=None, axioms=None, inline=None, inline_props=None, max_depth=3, self_cls=None,
-                 args=None, unroll=None, oracle=None, forward_stores=True, model_del=True):
+                 args=None, unroll=None, oracle=None, forward_stores=True, model_del=True, join_unknown=False):
         self.name = name
         self.bind = bind or {}            # dotted path -> Val
         self.axioms = axioms or {}        # normalised condition text -> bool
@@ -289,6 +289,7 @@ class Scenario(object):
         self.oracle = oracle              # callable(condition text) -> bool | None  (scenario facts given as a predicate)
         self.forward_stores = forward_stores   # False for parse methods: attribute stores go through property setters
         self.model_del = model_del        # del buf[:n] rebinds buf to the remaining octets (False for reader-sequence extraction)
+        self.join_unknown = join_unknown  # undecided `if`: run both arms and join the normal exits (call/store sets are united)
 
 
 BUILTIN_TYPES = {'str', 'bytes', 'bytearray', 'int', 'bool', 'list', 'tuple', 'set', 'dict', 'NoneType', 'datetime',
@@ -515,7 +516,34 @@ class Frame(object):
         s1, s2 = st, st.fork()
         s1.facts.append((t, True, sk))
         s2.facts.append((t, False, sk))
-        return self.block(node.body, s1) + self.block(node.orelse, s2)
+        outs = self.block(node.body, s1) + self.block(node.orelse, s2)
+        if self.sc.join_unknown:
+            normal = [s for s, status in outs if status == 'normal']
+            if len(normal) > 1:
+                base = normal[0]
+                for s in normal[1:]:
+                    for c in s.calls:
+                        if c not in base.calls:
+                            base.calls.append(c)
+                    for c in s.stores:
+                        if c not in base.stores:
+                            base.stores.append(c)
+                    for e in s.events:
+                        if e not in base.events:
+                            base.events.append(e)
+                    for k in list(base.env):
+                        a, b = base.env.get(k), s.env.get(k)
+                        if b is None or render(a) != render(b):
+                            if isinstance(a, Bytes) and isinstance(b, Bytes):
+                                base.env[k] = Bytes([('ALT', [a.items, b.items])])
+                            else:
+                                base.env[k] = Sym('JOIN(%s | %s)' % (render(a), render(b) if b is not None else '<unbound>'))
+                    for k in s.env:
+                        if k not in base.env:
+                            base.env[k] = s.env[k]
+                base.facts = [f for f in base.facts if f in st.facts or all(f in x.facts for x in normal)]
+                outs = [(base, 'normal')] + [(s, status) for s, status in outs if status != 'normal']
+        return outs
 
     def st_With(self, node, st):
         for item in node.items:
@@ -919,6 +947,9 @@ class Frame(object):
             ci = base.ci
             av = ci.find_attr(node.attr)
             if av is not None:
+                cv = self._class_collection(ci, node.attr, av, st)
+                if cv is not None:
+                    return cv
                 members = None
                 for c in ci.mro():
                     if node.attr in c.attrs:
@@ -941,6 +972,9 @@ class Frame(object):
             # class-level constant attribute (e.g. __pubfields__) seen through the instance
             av = cls.find_attr(node.attr)
             if av is not None and cls.find_prop(node.attr) is None:
+                cv = self._class_collection(cls, node.attr, av, st)
+                if cv is not None:
+                    return cv
                 try:
                     lit = ast.literal_eval(av)
                     if isinstance(lit, (tuple, list)):
@@ -958,6 +992,26 @@ class Frame(object):
                     if r is not None:
                         return r
         return Sym(normalise_path(path))
+
+    def _class_collection(self, cls, name, av, st):
+        """Class-level NAME = {A, B} / frozenset({...}) / (A, B) of enum members, seen through an instance or the class."""
+        inner = av
+        if isinstance(av, ast.Call) and dotted(av.func) in ('frozenset', 'set', 'tuple', 'list') and len(av.args) == 1:
+            inner = av.args[0]
+        if not isinstance(inner, (ast.Set, ast.Tuple, ast.List)) or not inner.elts:
+            return None
+        owner = None
+        for c in cls.mro():
+            if name in c.attrs:
+                owner = c
+                break
+        if owner is None:
+            return None
+        fr = Frame(self.I, FunctionInfo(ast.parse('def _f(): pass').body[0], owner.module, owner), self.depth)
+        elems = [fr.ev(e, State()) for e in inner.elts]
+        if not all(isinstance(e, Const) for e in elems):
+            return None
+        return ListV(elems, 'set' if isinstance(inner, ast.Set) else 'tuple')
 
     def _is_enum(self, ci):
         for c in ci.mro():
@@ -1154,6 +1208,8 @@ class Frame(object):
             return st.env[path]
         if isinstance(sl, ast.Slice):
             lo = self.text(sl.lower, st) if sl.lower is not None else ''
+            if lo == '0':
+                lo = ''
             hi = self.text(sl.upper, st) if sl.upper is not None else ''
             if sl.step is not None:
                 return Sym('%s[%s:%s:%s]' % (render(base), lo, hi, self.text(sl.step, st)))
